@@ -68,6 +68,28 @@ def bounded_cycle(ctx):
               'maxloops is not initialised with a positive integer constant', init)
 
 
+@rule('C14.R9', min_instances=1)
+def active_means_a_state_function_is_installed(ctx):
+    """StateMachine.is_active is what HasStates.stop_machine asks before it posts a Stop: it has to be true as long as ANY state
+    function is installed - the states of a running clean-up sequence included.  A definition that also looks at
+    cleanup_reason (or the pending task) makes stop() return silently while a restart is being cleaned up: the pending Start
+    survives and the new state is entered although stop was the last request"""
+    m = ctx.m
+    ci = m.cls(SM)
+    f = ci.methods.get('is_active')
+    if f is None:
+        raise AnchorMissing('StateMachine.is_active not found')
+    ctx.analysed(f)
+    reads = {n.attr for n in body_walk(f.node) if isinstance(n, ast.Attribute) and dotted(n.value) == 'self' and isinstance(n.ctx, ast.Load)}
+    extra = reads - {'statefunc'}
+    ctx.check('statefunc' in reads and not extra, f'{f.qualname}:depends on the installed state function only', f.node, 'reads self.statefunc only',
+              f'is_active also reads {sorted(extra)}: a machine that is executing its clean-up states counts as inactive, so stop_machine() does not post '
+              'its Stop - a Start posted before survives the stop', f)
+    users = [c for q, g in m.functions.items() if g.module.name == 'frappy.states' for c in body_walk(g.node)
+             if isinstance(c, ast.Attribute) and c.attr == 'is_active']
+    ctx.check(bool(users), 'frappy.states:stop_machine asks is_active', None, 'is_active is what frappy.states consults', 'frappy.states no longer consults is_active')
+
+
 def _result_names(f):
     """locals of cycle() holding the next state: bound to the result of the state function or of _cleanup(...)"""
     return {t.id for n in body_walk(f.node) if isinstance(n, ast.Assign) and isinstance(n.value, ast.Call)
@@ -343,7 +365,8 @@ def each_run_starts_clean(ctx):
     s = _m(m, 'start')
     ctx.analysed(s)
     cfgs = CFG(s.node, m, s.module)
-    dflt = [i for c in calls_in(s.node) if call_attr(c) == 'setdefault' and c.args and isinstance(c.args[0], ast.Constant) and c.args[0].value == 'cleanup' for i in cfgs.node_of(c)]
+    dflt = [i for c in calls_in(s.node) if call_attr(c) == 'setdefault' and c.args and isinstance(c.args[0], ast.Constant) and c.args[0].value == 'cleanup'
+            and (len(c.args) < 2 or (isinstance(c.args[1], ast.Constant) and c.args[1].value is None)) for i in cfgs.node_of(c)]
     posts = [i for t, v, st in attr_stores(s.node) if t.attr == 'next_task' for i in cfgs.node_of(st)]
     ctx.check(bool(dflt) and all(cfgs.dominates(dflt, i) for i in posts), f'{s.qualname}:cleanup defaults to None for every start', s.node,
               "kwds.setdefault('cleanup', None) before the task is posted",
